@@ -49,6 +49,56 @@ pub struct Case {
 
 pub struct C17 {
     pub backend: Backend,
+    /// part `*-large-batches`: few calls, bulk calls naming 100 .. 5000 ids (round 11: size thresholds were a blind spot of
+    /// several checks; a backend that pages, chunks or caps its bulk statements is crossed here)
+    pub large: bool,
+}
+
+const LARGE: [usize; 8] = [100, 500, 999, 1_000, 1_001, 2_000, 4_097, 5_000];
+
+fn large_ids(src: &mut Src) -> Vec<u64> {
+    let k = *src.pick(&LARGE);
+    let base = *src.pick(&[0u64, 1, (1 << 63) - 600, u64::MAX - 6_000, 1 << 32]);
+    let base = if src.chance(1, 4) { src.word() } else { base };
+    let stride = *src.pick(&[1u64, 1, 3, (1 << 32) + 1, 0x9E37_79B9_7F4A_7C15]);
+    (0..k as u64).map(|i| base.wrapping_add(i.wrapping_mul(stride))).collect()
+}
+
+fn gen_large(src: &mut Src, persistent: bool) -> Case {
+    let n = 2 + src.below(7);
+    let n_ks = 1 + src.below(2);
+    let mut calls = vec![];
+    let mut last_ids: Vec<u64> = vec![];
+    for _ in 0..n {
+        let ks = src.below(n_ks);
+        let c = match src.weighted(&[4, 3, 3, 2, 1, 1, if persistent { 2 } else { 0 }]) {
+            0 => {
+                let ids = if !last_ids.is_empty() && src.chance(1, 3) { last_ids.clone() } else { large_ids(src) };
+                last_ids = ids.clone();
+                let st = gen_stamp(src);
+                let own_stamps = src.chance(1, 2);
+                Call::MultiPut {
+                    ks,
+                    docs: ids.iter().enumerate().map(|(i, id)| (*id, if own_stamps { Stamp { counter: (i % 65_536) as u16, ..st } } else { st }, i % 5)).collect(),
+                }
+            },
+            1 => {
+                let ids = if !last_ids.is_empty() && src.chance(1, 2) { last_ids.clone() } else { large_ids(src) };
+                last_ids = ids.clone();
+                let st = gen_stamp(src);
+                Call::MultiTombstone { ks, docs: ids.iter().enumerate().map(|(i, id)| (*id, Stamp { counter: (i % 65_536) as u16, ..st })).collect() }
+            },
+            // remove the first k tombstones of the keyspace (picks select tombstones by index, see `run`)
+            2 => Call::RemoveTombstones { ks, picks: (0..*src.pick(&LARGE) as u64).map(|i| i * 4 + 1).collect() },
+            3 => Call::MultiGet { ks, ids: if last_ids.is_empty() { large_ids(src) } else { last_ids.clone() } },
+            4 => Call::Put { ks, id: gen_id(src), stamp: gen_stamp(src), len: gen_len(src) },
+            5 => Call::IterMetadata { ks },
+            _ => Call::Reopen,
+        };
+        calls.push(c);
+    }
+    // the full read-back (a get per known id) runs after a generated subset of the calls and at the end
+    Case { calls, sparse: true, full_check_mask: src.word() & src.word() & src.word() }
 }
 
 const IDS: &[u64] = &[0, 1, 2, 3, (1 << 63) - 1, 1 << 63, u64::MAX - 1, u64::MAX];
@@ -98,6 +148,14 @@ impl Prop for C17 {
     }
 
     fn part(&self) -> &'static str {
+        if self.large {
+            return match self.backend {
+                Backend::Mem => "memstore-large-batches",
+                Backend::SqliteMemory => "sqlite-memory-large-batches",
+                Backend::SqliteFile => "sqlite-file-large-batches",
+                Backend::Lmdb => "lmdb-large-batches",
+            };
+        }
         match self.backend {
             Backend::Mem => "memstore",
             Backend::SqliteMemory => "sqlite-memory",
@@ -127,9 +185,12 @@ impl Prop for C17 {
     }
 
     fn gen(&self, src: &mut Src) -> Case {
+        let persistent = matches!(self.backend, Backend::SqliteFile | Backend::Lmdb);
+        if self.large {
+            return gen_large(src, persistent);
+        }
         let n = 1 + src.below(40);
         let n_ks = 1 + src.below(3);
-        let persistent = matches!(self.backend, Backend::SqliteFile | Backend::Lmdb);
         let mut calls = vec![];
         for _ in 0..n {
             let ks = src.below(n_ks);
@@ -215,12 +276,20 @@ impl Prop for C17 {
     fn describe(&self, case: &Case) -> Value {
         json!({
             "backend": format!("{:?}", self.backend),
-            "calls": case.calls.iter().map(|c| format!("{:?}", c)).collect::<Vec<_>>(),
+            "calls": case.calls.iter().map(|c| if self.large { brief(c) } else { format!("{:?}", c) }).collect::<Vec<_>>(),
             "full_read_back": if case.sparse { format!("only after calls whose bit is set in {:#x}, and at the end", case.full_check_mask) } else { "after every call".to_string() },
         })
     }
 
     fn rule(&self) -> &'static str {
+        if self.large {
+            return "2-8 Storage calls over 1-2 keyspaces, most of them bulk calls naming 100 .. 5000 ids (sizes on and around 1000 and \
+                    4096; consecutive, strided or wrapping ids anywhere in the u64 range; one shared stamp or one per document): multi_put, \
+                    mark_many_as_tombstone (on fresh ids or on the ids of the previous bulk), remove_tombstones of the first k tombstones, \
+                    multi_get of a whole bulk, iter_metadata, single puts, close + reopen for file-backed stores; same model, same \
+                    oracle as the base part (full read-back after a generated subset of the calls and at the end); non-trivial = a bulk \
+                    of >= 1000 ids";
+        }
         "1-40 Storage calls (put, multi_put and mark_many_as_tombstone with distinct ids or one id named twice, \
          mark_as_tombstone, remove_tombstones on ids that \
          are tombstones or absent, get, multi_get, iter_metadata, get_keyspace_list; for file-backed stores also close \
@@ -617,7 +686,17 @@ async fn run<B: Sut>(case: &Case, b: &mut B) -> Outcome {
     if big_payload {
         labels.push("payload_64KiB");
     }
-    Ok(Pass { nontrivial: tomb_on_empty || big_id || reopen_after_write, labels })
+    let bulk = case.calls.iter().map(|c| match c {
+        Call::MultiPut { docs, .. } => docs.len(),
+        Call::MultiTombstone { docs, .. } => docs.len(),
+        Call::MultiGet { ids, .. } => ids.len(),
+        _ => 0,
+    }).max().unwrap_or(0);
+    if bulk >= 1_000 {
+        labels.push("bulk>=1000");
+    }
+    let large = case.calls.iter().any(|c| matches!(c, Call::RemoveTombstones { picks, .. } if picks.len() >= 100)) || bulk >= 100;
+    Ok(Pass { nontrivial: if large { bulk >= 1_000 } else { tomb_on_empty || big_id || reopen_after_write }, labels })
 }
 
 fn brief(c: &Call) -> String {
@@ -627,9 +706,13 @@ fn brief(c: &Call) -> String {
 
 pub fn parts() -> Vec<Box<dyn DynPart>> {
     vec![
-        Box::new(Gen::new(C17 { backend: Backend::Mem }, 20_000, 500_000)),
-        Box::new(Gen::new(C17 { backend: Backend::SqliteMemory }, 5_000, 150_000)),
-        Box::new(Gen::new(C17 { backend: Backend::SqliteFile }, 3_000, 100_000)),
-        Box::new(Gen::new(C17 { backend: Backend::Lmdb }, 5_000, 150_000)),
+        Box::new(Gen::new(C17 { backend: Backend::Mem, large: false }, 20_000, 500_000)),
+        Box::new(Gen::new(C17 { backend: Backend::SqliteMemory, large: false }, 5_000, 150_000)),
+        Box::new(Gen::new(C17 { backend: Backend::SqliteFile, large: false }, 3_000, 100_000)),
+        Box::new(Gen::new(C17 { backend: Backend::Lmdb, large: false }, 5_000, 150_000)),
+        Box::new(Gen::new(C17 { backend: Backend::Mem, large: true }, 800, 24_000)),
+        Box::new(Gen::new(C17 { backend: Backend::SqliteMemory, large: true }, 300, 9_000)),
+        Box::new(Gen::new(C17 { backend: Backend::SqliteFile, large: true }, 200, 6_000)),
+        Box::new(Gen::new(C17 { backend: Backend::Lmdb, large: true }, 300, 9_000)),
     ]
 }
